@@ -302,6 +302,10 @@ func (matrix *SparseInt16Matrix) AsVector() Vector {
   return matrix.AsSparseInt16Vector()
 }
 func (matrix *SparseInt16Matrix) storageLocation() uintptr {
+  if matrix.values.Dim() == 0 {
+    // no storage to point into: the matrix header identifies an empty matrix
+    return uintptr(unsafe.Pointer(matrix))
+  }
   return uintptr(unsafe.Pointer(matrix.values.AT(0).ptr))
 }
 /* const interface
